@@ -90,6 +90,19 @@ static inline void c32_extend(mjSpec* s, uint64_t seed, unsigned feat, int nbody
         for (int i = 0; i < nm; i++) mjg_quat(r, buf + 4 * i);
         if (nm && mjg_chance(r, 0.7)) mjs_setDouble(key->mquat, buf, 4 * nm);
       }
+      // a key that differs from qpos0 only in the last coordinate (beyond nv when there are free/ball joints)
+      if (nq > 0) {
+        mjsKey* key = mjs_addKey(s);
+        mjs_setName(key->element, "klast");
+        for (int i = 0; i < nq; i++) buf[i] = m->qpos0[i];
+        int lastj = m->njnt - 1;
+        if (m->jnt_type[lastj] == mjJNT_FREE || m->jnt_type[lastj] == mjJNT_BALL) {
+          buf[nq - 4] = 0.6; buf[nq - 3] = 0; buf[nq - 2] = 0; buf[nq - 1] = 0.8;
+        } else {
+          buf[nq - 1] += 0.25;
+        }
+        mjs_setDouble(key->qpos, buf, nq);
+      }
       free(buf);
       mj_deleteModel(m);
     }
